@@ -315,7 +315,7 @@ def samples_from(events, n=3):
 
 
 REQUIRED_ANTS = {
-    "C01": ["RoundTrip"], "C02": ["Released"], "C03": ["Distinct", "FalseAcceptProbe"], "C04": ["UninitDependence"],
+    "C01": ["RoundTrip"], "C02": ["Released"], "C03": ["Distinct", "FalseAcceptProbe", "NoFalseAccept"], "C04": ["UninitDependence"],
     "C05": ["FailClosed", "FailClosedStaleErrno", "ShortSizes", "KdfParams"], "C06": ["Shape"], "C07": ["Result", "ResultNonzeroErrno", "UninitDependence"],
     "C08": ["AsIfAlone"], "C09": ["Wiped"], "C14": ["Handle", "Grow"], "C15": ["Balanced"], "C20": ["Result", "FailClosed"],
     "C19": ["Result", "Released", "UninitDependence", "FailClosed"],
@@ -482,6 +482,7 @@ def c07(ctx):
                 for al in (aligns[:6] if quick else aligns):
                     fill = rng.choice((0, 1, 2, 3))
                     cmds.append("obj 0 %d %d" % (al, fill))
+                    cmds.append("stage %d" % rng.randrange(2))        # arguments passed from the object's own input/setting fields or not
                     fnc = rng.choice(("crypt_rn 0 %s %s 32768", "crypt_r 0 %s %s", "xcrypt_r 0 %s %s"))
                     cmds.append(fnc % (hx(ph), hx(s)))
                     cmds.append(noise_cmds(rng, cfgev["E"]))
@@ -490,6 +491,7 @@ def c07(ctx):
                 for fnc in ("crypt - %s %s", "fcrypt - %s %s", "xcrypt - %s %s", "crypt_ra 0 %s %s", "crypt_ra 1 %s %s"):
                     cmds.append(noise_cmds(rng, cfgev["E"]))
                     cmds.append(fnc % (hx(ph), hx(s)))
+    cmds.append("stage 0")
     # crypt_gensalt's static result handed straight to crypt, compared with a copied setting
     for m in cfgev["E"]:
         if m in ("bcrypt_x",):
@@ -867,7 +869,17 @@ def c04(ctx):
             for s in [cheap_setting(m, rng)] + (gen.zero_settings(m, rng) if n in (1, 9, 129) else []):
                 for fill in (0, 1, 2, 3):
                     un.append("obj 0 %d %d" % (rng.randrange(16), fill))
+                    # every other call passes phrase and setting from the object's own input/setting fields (<crypt.h>'s use of them)
+                    un.append("stage %d" % (fill % 2))
                     un.append("%s 0 %s %s" % (rng.choice(("crypt_r", "crypt_rn")), hx(ph), hx(s)))
+    un.append("stage 0")
+    # legal settings that ask for gigabytes (r*p up to 2^30 is allowed), under a small address-space limit: a clean ENOMEM
+    # or EINVAL, never a region sized by a wrapped product
+    un += ["obj 0 0 0", "aslimit 768"]
+    for s in ("$7$0/........0saltsalt", "$7$0....0/....saltsalt", "$7$0...0.....0saltsalt", "$7$0..0....0..saltsalt", "$7$I6..../....saltsalt",
+              "$7$2/......../saltsalt", "$7$2..../..../saltsalt", "$y$jJ5$saltsalt", "$y$jFz1$saltsalt", "$gy$jJ5$saltsalt"):
+        un.append("crypt_rn 0 %s %s 32768" % (hx(b"pw"), hx(s)))
+    un.append("aslimit 0")
     ev4 = ctx.run_xcv(un)
     v4 = judge(ctx, ev4, "uninit", cfgev)
     # crypt_gensalt* under the sanitizers too: every prefix, boundary counts, sizes and byte counts (incl. negative)
@@ -1011,7 +1023,7 @@ def gs_coverage(ctx, vs, events, extra):
 
 
 REQUIRED_ANTS_GS = {"C10": ["Success", "Deterministic", "NonzeroErrno"], "C11": ["Success", "CostReject"],
-                    "C12": ["Flip", "EntropyFresh", "AutoEntropy"], "C13": ["Monotone", "Full", "SmallSize", "NonzeroErrno"]}
+                    "C12": ["Flip", "EntropyFresh", "AutoEntropy", "TooShort"], "C13": ["Monotone", "Full", "SmallSize", "NonzeroErrno"]}
 GS_ASSUME = ["Gensalt.tla/Settings.tla transcribe the documented behaviour (gated by zero model divergences on the unchanged tree)",
              "count, nrbytes and size values are the grids listed in coverage, not all 2^64 x 2^32 x 2^32 values"]
 
@@ -1050,8 +1062,17 @@ def c10(ctx):
                     continue
                 seen.add(s)
                 follow.append("crypt_rn 0 %s %s 32768" % (hx(gen.rand_phrase(rng, rng.choice((3, 9, 20)))), hx(s)))
+    # ... and the most expensive setting each memory-hard method's generator emits (count 11: 1 GiB), once: a crypt-side
+    # limit must not sit below what crypt_gensalt hands out
+    topm = [m for m in (("yescrypt",) if quick else ("yescrypt", "gost_yescrypt", "scrypt")) if m in E]
+    for e in ev1:
+        if e.get("e") == "gensalt_rn" and e["ret"] != "null" and e["resk"] == "str" and not e["prefixnull"] and int(e["count"]) == 11 and e["rbnull"] == 0:
+            m = method_of_prefix(bytes(e["prefix"]).decode("latin-1"), E, default="yescrypt")
+            if m in topm and bytes(e["prefix"]).decode("latin-1") == gen.PREFIX[m]:
+                topm.remove(m)
+                follow.append("crypt_rn 0 %s %s 32768" % (hx(b"top-cost"), hx(bytes(e["res"]))))
     follow.append("crypt_via_gensalt %s - 0 -" % hx(b"default-prefix"))
-    ev2 = ctx.run_xcv(follow)
+    ev2 = ctx.run_xcv(follow, timeout=1800)
     for e in ev2:
         if e.get("e") in ("crypt_rn", "crypt"):
             e["gs"] = 1
@@ -1315,6 +1336,11 @@ def c13(ctx):
         rb = bytes(rng.randrange(256) for _ in range(16))
         for nrb in (-1, -2147483648, 0):
             cmds.append(gs_cmd("gensalt_rn", pfx, 0, rb, str(nrb), 192))
+        # byte counts near INT_MAX (legal for an int): size arithmetic on them must not wrap
+        rb300 = bytes(rng.randrange(256) for _ in range(300))
+        for nrb in (2 ** 30 + 4, 2 ** 30 + 100, 2 ** 31 - 1):
+            for sz in (19, 20, 21, 23, 24, 64, 192):
+                cmds.append(gs_cmd("gensalt_rn", pfx, rng.choice((0, 0, 4000000000)), rb300, str(nrb), sz))
         for sz in (1048576, 65536, rng.randrange(257, 10 ** 6)):
             cmds.append(gs_cmd("gensalt_rn", pfx, 0, rb, "len", sz))
     ev1 = ctx.run_xcv(cmds, timeout=1800)
@@ -1498,6 +1524,8 @@ def c03(ctx):
         s_main = cheap_setting(m, rng)
         if m == "bsdicrypt":
             s_main = "_J9.." + gen.salt(rng, 4)
+        if m == "bigcrypt":
+            s_main = gen.salt(rng, 2) + "." * 22      # longer than a traditional hash: bigcrypt itself, not the forward to descrypt
         # degenerate spellings of the cost field (zero / empty / implicit default): the edge of every rounds loop
         degenerate = {"sha1crypt": ["$sha1$0$" + gen.salt(rng, 8), "$sha1$$" + gen.salt(rng, 8)],
                       "sha256crypt": ["$5$" + gen.salt(rng, 16)], "sha512crypt": ["$6$" + gen.salt(rng, 16)],
@@ -1570,9 +1598,40 @@ def c03(ctx):
         if b >= 0:
             e["bprev"] = pos_of[b] + 2          # 1-based, +1 for the config line
     v = judge(ctx, ev1, "pert", cfgev)
+    # verification-style pass: each base result H is used as the SETTING (the way a stored hash is checked) with phrases
+    # that differ from the enrolled one -- extended, truncated, last byte changed; none may reproduce H
+    cmds2, meta2 = ["logpc 1", "obj 0 0 0"], []
+    nver = 0
+    for (i, e), b in zip(calls, meta):
+        if b != -1 or not (e["ret"] == "out" and e["outk"] == "str" and e["out"] and e["out"][0] != 42):
+            continue
+        P, H = bytes.fromhex(e["ph"]) if e["ph"] else b"", bytes(e["out"])
+        if len(P) in (0,) or (quick and nver >= 400):
+            continue
+        nver += 1
+        base_i = len(meta2)
+        cmds2.append("crypt_rn 0 %s %s 32768" % (hx(P), hx(H)))
+        meta2.append(-1)
+        cand = [P + b"X", P + gen.rand_phrase(rng, 8), P[:-1], P[:-1] + bytes([P[-1] ^ 0x01 or 0x02])]
+        if len(P) > 8:
+            cand.append(P[:-8])
+        for Q in cand:
+            if 0 < len(Q) < 512 and Q != P:
+                cmds2.append("crypt_rn 0 %s %s 32768" % (hx(Q), hx(H)))
+                meta2.append(base_i)
+    ev2 = ctx.run_xcv(cmds2, timeout=1800)
+    calls2 = [(i, e) for i, e in enumerate(ev2) if e.get("e") == "crypt_rn"]
+    if len(calls2) != len(meta2):
+        raise Broken("lost calls in the verification pass")
+    pos2 = [i for i, e in calls2]
+    for (i, e), b in zip(calls2, meta2):
+        if b >= 0:
+            e["bprev"] = pos2[b] + 2
+    v2 = judge(ctx, ev2, "verify", cfgev)
     attribute(ctx)
-    cov = mc_coverage(ctx, laws.get("distinct", 1), laws.get("generated", 1), [v], ev1,
+    cov = mc_coverage(ctx, laws.get("distinct", 1), laws.get("generated", 1), [v, v2], ev1,
                       {"base_requests": nbase, "perturbed_requests": sum(1 for b in meta if b >= 0),
+                       "stored_hashes_verified_against_other_phrases": nver,
                        "predicates": ["Distinct: a significant change (Settings!PhraseKey / canonical setting) changes the digest part"]})
     return "model_checking", cov, ASSUME_COMMON + ["collision resistance of the digests is the oracle for 'took part in the hash'"]
 
